@@ -52,7 +52,7 @@ func zzCanaryWrite(path, content string) error {
 func runC18(p *core.Program, r *core.Report) {
 	r.Explanation = "Structural rules for the file configuration (config/conffile). Map guard: the key/value map is shared between the reload goroutine and every getter; every access to it (read, write, replacement, iteration) in every method must happen with the configuration's mutex held (lock-region dataflow on go/cfg). Getters: each typed getter returns the default for an empty value and for a parse error and the parsed value otherwise; no value obtained together with an error is consumed on the err != nil branch. Change detection: reload skips exactly when the file's modification time equals the last seen one (equality, not ordering) and compares it at full resolution; after applying a change it notifies the observer. Write-back: the parser never opens the configuration path for truncation/creation; it writes a temporary file in the same directory, syncs it and renames it over the original on every success path. Merge: SetValues re-reads the file through the parser, overlays the given keys (exclusions, prefix, suffix) and calls the parser's Write once."
 	r.NotDecided = []string{"that comments and line order survive a write (string processing in DefaultFileParser.Write; values containing '=' in non-word-key lines are truncated — seen while reading, value-level)", "crash points as instants (the atomic-replace shape is the necessary condition)"}
-	XX
+	r.Rule("C18.map-guard", "every access to the configuration map happens under the configuration's mutex", 3)
 	r.Rule("C18.getters", "typed getters fall back to the default on empty and on parse error; error polarity is right", 6)
 	r.Rule("C18.trim", "the raw accessor hands out map values with the surrounding white space removed (the loader keeps what follows the value on its line; the typed getters parse what the accessor returns)", 1)
 	r.Rule("C18.reload", "reload skips iff mtime == last (full resolution), applies, then notifies the observer", 3)
